@@ -6,7 +6,10 @@ run the property's quick (and, if missed, thorough) check against it, and file i
 import json, os, shutil, subprocess, sys, time
 VERIF = os.path.dirname(os.path.dirname(os.path.abspath(__file__)))
 prop, m = sys.argv[1], sys.argv[2]
-src = "/tmp/seed/%s-out" % prop
+rnd = "seed"
+if "--round" in sys.argv:
+    rnd = sys.argv[sys.argv.index("--round") + 1]
+src = "/tmp/%s/%s-out" % (rnd, prop)
 patch, demo = os.path.join(src, m + ".diff"), os.path.join(src, m + "_demo_test.go")
 def run(cmd):
     p = subprocess.run(cmd, stdout=subprocess.PIPE, stderr=subprocess.STDOUT, text=True)
@@ -25,7 +28,7 @@ if verified:
                          "first_violation": next((l.strip()[:300] for l in out.splitlines() if l.strip().startswith("kind=")), "")}
         if rc == 1:
             break
-dst = os.path.join(VERIF, "seeded", "%s-%s" % (prop, m))
+dst = os.path.join(VERIF, "seeded", "%s-%s%s" % (prop, "" if rnd == "seed" else "r2", m))
 os.makedirs(dst, exist_ok=True)
 shutil.copy(patch, os.path.join(dst, "patch.diff"))
 shutil.copy(demo, os.path.join(dst, "demo_test.go"))
@@ -33,7 +36,7 @@ notes = ""
 if os.path.exists(os.path.join(src, "NOTES.md")):
     notes = open(os.path.join(src, "NOTES.md")).read()
     shutil.copy(os.path.join(src, "NOTES.md"), os.path.join(dst, "NOTES.md"))
-meta = {"property": prop, "mutant": m, "origin": "independent sub-agent given only the property text and a scratch worktree",
+meta = {"property": prop, "mutant": m, "origin": "independent sub-agent given only the property text and a scratch worktree" + ("" if rnd == "seed" else " (second round: also told which regressions the first round had produced)"),
         "verified": verified, "verification": vout.strip().splitlines(),
         "what_i_ran": ["tools/mutant.py verify patch.diff demo_test.go", "tools/mutant.py check %s patch.diff --tier quick" % prop],
         "check_results": results}
